@@ -56,12 +56,13 @@ type Case struct {
 	Steps   []Step `json:"steps"`
 }
 
-var slack = 2500 * time.Millisecond
+// every wait is bounded by this; it is only ever used up when something is wrong
+var slack = 15 * time.Second
 
 // ---- generators ----
 
 func genCase(r *gen.Rand, i int) any {
-	c := Case{Clients: r.Range(2, 4), Lua: r.Chance(1, 3), TTL: 4000, CTTL: 4000}
+	c := Case{Clients: r.Range(2, 4), Lua: r.Chance(1, 3), TTL: 60000, CTTL: 60000}
 	c.Kind = gen.Pick(r, []string{"solo", "solo", "share", "share", "share", "fail", "fail", "death", "death", "expire", "ext", "panic", "nofn"})
 	add := func(s Step) { c.Steps = append(c.Steps, s) }
 	key := gen.Pick(r, []string{"k", "user:1", "a b", "rueid"})
@@ -713,7 +714,7 @@ func run(ci any) (res obs.Result) {
 			go func() { wg.Wait(); close(fin) }()
 			select {
 			case <-fin:
-			case <-time.After(3 * slack):
+			case <-time.After(2 * slack):
 				w.mu.Lock()
 				w.fail("get-hangs", "concurrent Gets did not return")
 				w.mu.Unlock()
@@ -800,7 +801,7 @@ func run(ci any) (res obs.Result) {
 	go func() { wg.Wait(); close(fin) }()
 	select {
 	case <-fin:
-	case <-time.After(3 * slack):
+	case <-time.After(2 * slack):
 	}
 	time.Sleep(5 * time.Millisecond)
 	w.s.Lock()
